@@ -91,9 +91,13 @@ WirePage == {
   <<"lm_empty", "none", "none">>, <<"lm_year_big", "none", "none">>,
   <<"rf_refresh_ipv6", "none", "none">>,
   \* server-chosen names reaching the file writer
-  <<"fn_deep_dirs", "h_writer_process_response", "RecursionError">>, <<"fn_long_total", "h_writer_process_response", "OSError">>,
+  Fx("writer_names", <<"fn_deep_dirs", "h_writer_process_response", "RecursionError">>, <<"fn_deep_dirs", "h_writer_process_response", "ProtocolError">>),
+  Fx("writer_names", <<"fn_long_total", "h_writer_process_response", "OSError">>, <<"fn_long_total", "h_writer_process_response", "ProtocolError">>),
   <<"fn_long_component", "none", "none">>, Fx("win_names", <<"fn_win_trailing_dot", "h_request_filename", "ValueError">>, <<"fn_win_trailing_dot", "none", "none">>),
   Fx("win_names", <<"cd_win_trailing_dot", "h_writer_process_response", "ValueError">>, <<"cd_win_trailing_dot", "none", "none">>), <<"cd_garbage", "none", "none">>,
+  Fx("writer_names", <<"cd_names_directory", "h_writer_process_response", "OSError">>, <<"cd_names_directory", "h_writer_process_response", "ProtocolError">>),
+  Fx("writer_names", <<"cd_nul_nocontrol", "h_writer_process_response", "ValueError">>, <<"cd_nul_nocontrol", "h_writer_process_response", "ProtocolError">>),
+  Fx("writer_names", <<"fn_adjust_extension_directory", "h_writer_process_response", "OSError">>, <<"fn_adjust_extension_directory", "h_writer_process_response", "ProtocolError">>),
   \* sitemaps (--sitemaps)
   <<"sm_gzip_garbage", "h_scrape_sitemap", "BadGzipFile">>, <<"sm_gzip_truncated", "h_scrape_sitemap", "EOFError">>,
   <<"sm_gzip_ok", "none", "none">> }
